@@ -357,6 +357,31 @@ def _sink_block(block):
     return changed
 
 
+def _split_ifexp_loops(block):
+    """`for t in (A if c else B): body` with a call-free test whose names the
+    body does not rebind is `if c: for t in A: body / else: for t in B: body`
+    (c is evaluated once, before the loop, either way)."""
+    changed = False
+    for j, st in enumerate(block):
+        if not (isinstance(st, ast.For) and isinstance(st.iter, ast.IfExp)):
+            continue
+        c = st.iter.test
+        if not _call_free(c):
+            continue
+        written = set()
+        for n in ast.walk(st):
+            if isinstance(n, ast.Name) and isinstance(n.ctx, (ast.Store, ast.Del)):
+                written.add(n.id)
+        if written & {n.id for n in ast.walk(c) if isinstance(n, ast.Name)}:
+            continue
+        a, b = clone(st), clone(st)
+        a.iter, b.iter = clone(st.iter.body), clone(st.iter.orelse)
+        new = ast.copy_location(ast.If(test=clone(c), body=[a], orelse=[b]), st)
+        block[j] = new
+        changed = True
+    return changed
+
+
 def _free_loads(node, bound=frozenset()):
     """names read in `node` that are not (re)bound inside it before the read:
     comprehension variables and the targets of for loops / earlier plain
@@ -452,6 +477,8 @@ def normalize(func):
                 blk = getattr(owner, field, None)
                 if isinstance(blk, list) and blk and isinstance(blk[0], ast.stmt):
                     if _has_fill_loop(blk) and _sink_block(blk):
+                        round_changed = True
+                    if _split_ifexp_loops(blk):
                         round_changed = True
                     if _fold_block(blk, lambda i, blk=blk: _reads_after(new, blk, i)):
                         round_changed = True
